@@ -41,9 +41,19 @@ def child_env(extra=None):
     env["SOURCE_DATE_EPOCH"] = "1600000000"
     env["VERIF_REPO"] = str(REPO)
     env["PIP_NO_INDEX"] = "1"
+    for k in ("OMP_NUM_THREADS", "OPENBLAS_NUM_THREADS", "MKL_NUM_THREADS"):
+        env[k] = "1"  # 16 workers x BLAS thread pools only fight each other
     if extra:
         env.update(extra)
     return env
+
+
+def out_dir(kind):
+    """evidence/ and replay/ live in /verif only for runs against /repo itself; runs against a
+    scratch copy (VERIF_REPO, mutation campaign) write under .mut/ so committed evidence is never clobbered."""
+    if str(REPO) == "/repo":
+        return VERIF / kind
+    return VERIF / ".mut" / kind
 
 
 def rng(*parts):
@@ -109,8 +119,8 @@ def write_evidence(prop, tier, seed_, level, coverage, wall, violations, assumpt
         jsonschema.validate(ev, schema)
     except FileNotFoundError:
         pass
-    d = VERIF / "evidence"
-    d.mkdir(exist_ok=True)
+    d = out_dir("evidence")
+    d.mkdir(parents=True, exist_ok=True)
     tmp = d / f".{prop}.json.tmp"
     tmp.write_text(json.dumps(ev, indent=1, sort_keys=True, default=str) + "\n")
     os.replace(tmp, d / f"{prop}.json")
